@@ -2,7 +2,7 @@
 EXTENDS Framing
 \* kinds: concrete OpenFlow messages of these lengths are built by the adapter for each side
 \* (r80: a features reply with one port / a packet-out; h16: a HELLO with an 8-byte body, which receivers must accept)
-Lens == [r80 |-> 80, h16 |-> 16, huge |-> 40000, max |-> 65535, h8 |-> 8, e9 |-> 9, c12 |-> 12, m16 |-> 16, f72 |-> 72, f88 |-> 88, p64 |-> 64,
+Lens == [hv8 |-> 8, r80 |-> 80, h16 |-> 16, huge |-> 40000, max |-> 65535, h8 |-> 8, e9 |-> 9, c12 |-> 12, m16 |-> 16, f72 |-> 72, f88 |-> 88, p64 |-> 64,
          big |-> 1518, b2040 |-> 2040, b2047 |-> 2047, b2048 |-> 2048, b2049 |-> 2049, b2056 |-> 2056]
 SeqsUpTo(S, n) == UNION {[1..k -> S] : k \in 1..n}
 Small == SeqsUpTo({"h8", "e9", "c12"}, 3)
@@ -25,6 +25,9 @@ HugeCutsC == {7, 8, 9, 17}
 \* at the buffer again until more bytes arrive)
 Many == {[i \in 1..130 |-> "h8"], [i \in 1..300 |-> IF i % 3 = 0 THEN "e9" ELSE "h8"], [i \in 1..520 |-> "h8"]}
 ManyCuts == {1, 8, 1023, 1040, 2047, 2048, 2049, 4100}
+\* controller side only: the first message is a HELLO announcing another OpenFlow version (what a newer switch sends;
+\* the controller accepts it) - the messages behind it in the same read are judged by their own version byte
+HelloV == {<<"hv8", "e9", "h8">>, <<"hv8", "r80">>, <<"hv8", "h8", "p64">>}
 NoCuts == {}
 NoFail == {{}}
 SomeFail == {{}, {1}, {2}, {1, 2}, {1, 3}}
